@@ -607,6 +607,7 @@ package memefish
 // @   requires ParserInv(p) && notNil(join) && wf(join)
 // @   requires[C10] faithful: faithful(p.Lexer)
 // @   requires[C05] argpos: argsWithin()
+// @   requires[C05,C06] nosample: fieldNil(join, "Sample")
 // @   requires[C03] known: typeIs(join, "*ast.Unnest") || typeIs(join, "*ast.TableName") || typeIs(join, "*ast.PathTableExpr") || typeIs(join, "*ast.SubQueryTableExpr") || typeIs(join, "*ast.ParenTableExpr")
 // @   ensures ParserInv(p)
 // @   ensures[C10] faithfulw: faithfulW(p.Lexer)
@@ -646,6 +647,11 @@ package memefish
 // @   inherit parser
 // @   loop 0 invariant chainInv(p, join, old(len(p.errors)), old(p.Lexer.Token.Pos)) && freshRef(join)
 // @   loop 0 invariant[C05,C06] exactl: len(p.errors) == old(len(p.errors)) ==> spans(join, lowerBound(), trivStart(p.Lexer))
+
+// the sample clause is a node of its own (parseTableExprSuffix hangs it below a node that exists already)
+// @ func memefish.(*Parser).tryParseTableSample
+// @   inherit parseropt
+// @   ensures[C18,C05] freshres: freshRef(result)
 
 // @ func memefish.(*Parser).tryParseFrom
 // @   inherit parseropt
